@@ -219,6 +219,8 @@ pub enum Cmd {
     SetPC(u16),
     /// (run time) repeat [X ; SetPC pc0] until BC = 0 (or, when `stop_on_z`, Z is set); at most `max` rounds
     Singles { pc0: u16, stop_on_z: bool, max: u32 },
+    /// `set_freq(n8 / 8 MHz)` after the slice duration was set: reply = the budget it computed
+    SF(u32),
     /// register-pair accessor round trip: set pair `which` (0 BC 1 DE 2 HL 3 IX 4 IY 5 AF) to `v`
     SetPair(u8, u16),
 }
@@ -250,6 +252,7 @@ impl Cmd {
             Cmd::DA(a) => format!("DA {:04X}", a),
             Cmd::SD(d) => format!("SD {:X}", d),
             Cmd::SetPair(w, v) => format!("SP16 {} {:04X}", w, v),
+            Cmd::SF(n8) => format!("SF {:X}", n8),
             Cmd::Sync | Cmd::SetPC(_) | Cmd::Singles { .. } => "<runtime>".into(),
         }
     }
@@ -583,6 +586,10 @@ impl Imp {
             Cmd::SD(d) => {
                 self.cpu.set_slice_duration(*d);
                 "ok".into()
+            }
+            Cmd::SF(n8) => {
+                self.cpu.set_freq(*n8 as f32 / 8.0);
+                format!("V {}", self.cpu.verif_ctl().slice_max_cycles)
             }
         }
     }
